@@ -52,8 +52,14 @@ def gen_world(rng, n):
         a["tag"] = ABSENT if r < 0.3 else (NONE if r < 0.45 else rand_str(rng))
         a["name"] = NONE if rng.random() < 0.25 else rand_str(rng)
         attrs.append(a)
+    pre = [[] for _ in tasks]
+    for _ in range(rng.choice([0, 1, 2, 3, 4])):
+        a, b = rng.randint(1, n), rng.randint(1, n)
+        if es.legal_link(tasks, a, b) and b not in tasks[a - 1]["pre"]:
+            tasks[a - 1]["pre"].append(b)
+            pre[a - 1].append(b)
     return {"par": [t["par"] for t in tasks], "kids": [t["kids"] for t in tasks], "roots": roots, "ids": ids,
-            "attrs": attrs}
+            "attrs": attrs, "pre": pre, "suc": []}
 
 
 def build(W):
@@ -74,6 +80,11 @@ def build(W):
             attach(objs[c - 1].children, W["kids"][c - 1])
 
     attach(w.roots, W["roots"])
+    for i, pre in enumerate(W["pre"]):
+        if pre:
+            objs[i].predecessors = [objs[p - 1] for p in pre]
+    num = {id(o): i + 1 for i, o in enumerate(objs)}
+    W["suc"] = [[num[id(x)] for x in o.successors] for o in objs]      # list order as the API reports it
     return w, objs
 
 
@@ -98,6 +109,8 @@ def project(w, objs):
     return {"par": [g(o.parent) if o.parent is not None else 0 for o in objs],
             "kids": [[g(c) for c in o.children] for o in objs], "roots": [g(c) for c in w.roots],
             "ids": [o.id for o in objs],
+            "pre": [[g(p) for p in o.predecessors] for o in objs],
+            "suc": [[g(p) for p in o.successors] for o in objs],
             "attrs": [{"prio": value_of(o, "prio"), "tag": value_of(o, "tag"), "name": value_of(o, "name"),
                        "zz": value_of(o, "zz")} for o in objs]}
 
@@ -111,6 +124,10 @@ def the_list(w, objs, l):
         return objs[l["t"] - 1].children
     if l["kind"] == "all_children":
         return objs[l["t"] - 1].all_children
+    if l["kind"] == "preds":
+        return objs[l["t"] - 1].predecessors
+    if l["kind"] == "succs":
+        return objs[l["t"] - 1].successors
     return w
 
 
@@ -169,10 +186,12 @@ def gen_event(rng, eid, kind=None):
     kind = kind or rng.choice(["select"] * 5 + ["bulkset", "removeall", "removeall"])
     if kind == "removeall":
         l = rng.choice([{"kind": "roots", "t": 0}, {"kind": "wbs", "t": 0},
-                        {"kind": "children", "t": rng.randint(1, n)}])
+                        {"kind": "children", "t": rng.randint(1, n)}, {"kind": "preds", "t": rng.randint(1, n)},
+                        {"kind": "succs", "t": rng.randint(1, n)}])
     else:
         l = rng.choice([{"kind": "roots", "t": 0}, {"kind": "tasks", "t": 0},
-                        {"kind": "children", "t": rng.randint(1, n)}, {"kind": "all_children", "t": rng.randint(1, n)}])
+                        {"kind": "children", "t": rng.randint(1, n)}, {"kind": "all_children", "t": rng.randint(1, n)},
+                        {"kind": "preds", "t": rng.randint(1, n)}, {"kind": "succs", "t": rng.randint(1, n)}])
     if rng.random() < 0.15:
         qry = {"callable": rng.choice(sorted(CALLABLES)), "filters": []}
     else:
